@@ -145,6 +145,10 @@ func init() {
 				sc := &SeqCase{DocText: fixedDocs[s.doc], Doc: mustParse(fixedDocs[s.doc]), Ops: []ref.Op{s.op}, OpTexts: []string{s.text}}
 				judgeLegacyApply(c, sc, s.neg)
 			}},
+			{Name: "operations-deep-down", Exhaustive: true, Count: func(core.Tier) int { return len(deepDepths) * 2 }, Run: func(c *core.Ctx, idx int) {
+				judgeLegacyApply(c, deepOpsCase(deepDepths[idx/2], idx%2), idx%4 < 2)
+				c.Count("deep:cases")
+			}},
 			{Name: "indices-beyond-the-int-range", Exhaustive: true, Count: func(core.Tier) int { return len(hugeIdxToks18) * 5 * 2 * 2 }, Run: func(c *core.Ctx, idx int) {
 				// an index token with more digits than an int holds addresses nothing: an error and no document
 				// (never element 0 or 1 after wrapping around)
@@ -256,6 +260,25 @@ func init() {
 					docT = mprof.Object(c.R, 1+c.R.Intn(4))
 				}
 				judgeMerge(c, jpl.MergePatch, "legacy:", docT, genMergePatchFor(c.R, mprof, mustParse(docT)))
+			}},
+			{Name: "deep-paths", Exhaustive: true, Count: func(core.Tier) int { return len(deepDepths) * 4 }, Run: func(c *core.Ctx, idx int) {
+				// the four legacy functions on documents whose interesting part lies d levels down
+				d := deepDepths[idx/4]
+				if c.Tier != core.Thorough && d > 1025 && d != 2000 && d != 5001 {
+					return
+				}
+				switch idx % 4 {
+				case 0:
+					judgeMerge(c, jpl.MergePatch, "legacy:", deepWrap(d, `{"keep":1,"drop":2,"chg":3,"o":{"x":1,"y":[1]}}`), deepWrap(d, `{"drop":null,"chg":4,"o":{"y":null,"n":{"m":null,"v":1}},"new":[1]}`))
+				case 1:
+					judgeCreateObj(c, legacyCreate, deepWrap(d, `{"keep":1,"drop":2,"chg":3,"o":{"x":1,"y":[1]},"z":"s"}`), deepWrap(d, `{"keep":1,"chg":4,"o":{"x":1,"y":[1]},"z":"s","new":[1]}`))
+				case 2:
+					judgeCompose(c, legacyCompose, deepWrap(d, `{"x":1,"y":{"z":2,"q":null},"t":"s"}`), deepWrap(d, `{"y":{"w":3,"z":null},"k":null,"n":{"m":null}}`), []string{deepWrap(d, `{"x":0,"k":5,"y":{"q":1,"w":0}}`), `{}`})
+				default:
+					judgeEqual(c, jpl.Equal, "legacy:", deepWrap(d, `{"k":[1,{"m":"s"}],"n":null}`), deepWrap(d, `{"k":[1,{"m":"t"}],"n":null}`), "one-point-difference")
+					judgeEqual(c, jpl.Equal, "legacy:", deepWrap(d, `{"k":[1,{"m":"s"}],"n":null}`), deepWrap(d, ` { "n" : null , "k":[1,{"m":"s"}]}`), "equal-by-construction")
+				}
+				c.Count("deep:cases")
 			}},
 			{Name: "merge-strings-needing-escapes", Count: n(20000, 600000), Run: func(c *core.Ctx, idx int) {
 				// quotes, backslashes, a literal backslash followed by u003c, control characters, < > &: the result is
